@@ -222,7 +222,15 @@ func (e *Env) Build(a *APkt, o BuildOpts, now time.Time) ([]byte, error) {
 			h.Mac = e.badMAC(r, seg, ts, h.ExpTime, h.ConsIngress, h.ConsEgress)
 		}
 		s.PathType = onehop.PathType
-		s.Path = &onehop.Path{Info: path.InfoField{ConsDir: a.Infos[0].Cons, SegID: seg, Timestamp: ts}, FirstHop: h}
+		op := &onehop.Path{Info: path.InfoField{ConsDir: a.Infos[0].Cons, SegID: seg, Timestamp: ts}, FirstHop: h}
+		if len(a.Hops) > 1 && (a.Hops[1].In != 0 || a.Hops[1].Eg != 0 || a.Hops[1].Ia || a.Hops[1].Ea) {
+			// what the sender leaves in the second hop field is under its control
+			w2 := a.Hops[1]
+			op.SecondHop = path.HopField{ConsIngress: uint16(w2.In), ConsEgress: uint16(w2.Eg), ExpTime: uint8(r.Intn(256)),
+				IngressRouterAlert: w2.Ia, EgressRouterAlert: w2.Ea}
+			r.Read(op.SecondHop.Mac[:])
+		}
+		s.Path = op
 	} else {
 		d := &scion.Decoded{}
 		d.PathMeta.CurrINF, d.PathMeta.CurrHF = uint8(a.Inf), uint8(a.Hf)
@@ -232,6 +240,19 @@ func (e *Env) Build(a *APkt, o BuildOpts, now time.Time) ([]byte, error) {
 			d.PathMeta.SegLen[i] = uint8(n)
 			d.NumHops += n
 			ts := base - uint32(7*i)
+			// A segment with hop fields that are to be expired: half of the time (once the router has
+			// been running for 3 s) they expired only AFTER the router handled its first packet
+			// (0.5 .. 1.5 s after e.T0, i.e. at least 1.5 s ago; a stall can only make them older),
+			// otherwise 54 minutes ago.
+			recent := false
+			for j := 0; j < n; j++ {
+				recent = recent || a.Hops[k+j].Exp
+			}
+			recent = recent && !e.T0.IsZero() && now.Sub(e.T0) >= 3*time.Second && r.Intn(2) == 0 &&
+				!(a.Kind == "epic" && i == 0)
+			if recent {
+				ts = uint32(e.T0.Unix() + 1 - 337) // lifetime of ExpTime 0 is 337.5 s
+			}
 			hops := make([]path.HopField, n)
 			for j := range hops {
 				w := a.Hops[k+j]
@@ -274,6 +295,36 @@ func (e *Env) Build(a *APkt, o BuildOpts, now time.Time) ([]byte, error) {
 			}
 			ts0 := d.InfoFields[0].Timestamp
 			ets := uint32(sender.Sub(time.Unix(int64(ts0), 0))/(21*time.Microsecond)) - 1
+			// Extreme packet timestamps (the offset field is 32 bits of 21 us): a first segment created
+			// two seconds ago, and either a small offset (fresh) or the largest one (about 25 h ahead).
+			// Only when no hop field of the first segment is to be expired (its timestamp moves).
+			seg0Live := true
+			for j := 0; j < a.Seg[0]; j++ {
+				seg0Live = seg0Live && !a.Hops[j].Exp
+			}
+			if seg0Live && ((a.Ep.Fresh && r.Intn(4) == 0) || (!a.Ep.Fresh && o.Stale >= 4)) {
+				ts0 = uint32(now.Unix() - 2)
+				ets = uint32((now.Add(-time.Second).Sub(time.Unix(int64(ts0), 0)))/(21*time.Microsecond)) - 1
+				if !a.Ep.Fresh {
+					ets = 0xffffffff
+				}
+				// re-issue the first segment under the new timestamp
+				d.InfoFields[0].Timestamp = ts0
+				upd := make([]bool, a.Seg[0])
+				upd[0] = false
+				for j := range upd {
+					upd[j] = j == a.Hf && !a.Infos[0].Cons && viaExt && !(a.Infos[a.Inf].Peer && len(a.Seg) == 2 &&
+						(a.Hf == a.Seg[0]-1 || a.Hf == a.Seg[0]))
+				}
+				d.InfoFields[0].SegID = e.issue(r, ts0, d.HopFields[:a.Seg[0]], a.Hops[:a.Seg[0]], upd, nil)
+				raw = make([]byte, d.Len())
+				if err := d.SerializeTo(raw); err != nil {
+					return nil, err
+				}
+				if err := rp.DecodeFromBytes(raw); err != nil {
+					return nil, err
+				}
+			}
 			ep := &epic.Path{PktID: epic.PktID{Timestamp: ets, Counter: r.Uint32()}, ScionPath: rp}
 			var id [8]byte
 			ep.PktID.SerializeTo(id[:])
